@@ -28,6 +28,7 @@ type scriptedWitness struct {
 	answers []string // per attempt: G:..,P:..,U:..
 	cur     [3]string
 	latest  []byte // stub mode: fixed latest checkpoint (nil = none)
+	badLatest [][]byte // answers of the attempts scripted 'b'
 	ret     []byte // stub mode: what Update returns
 	real    feeder.Witness
 	ctl     *lspCtl // fault plan of the real witness's storage (nil: no wrapper)
@@ -72,6 +73,13 @@ func (w *scriptedWitness) GetLatestCheckpoint(ctx context.Context, logID string)
 	}
 	var b []byte
 	var err error
+	if w.failing('b') {
+		// the witness answers with bytes that are not a checkpoint of this log under the log's key: signed by another
+		// key, of another origin, or cut short.  Nothing can be concluded from them, so nothing may be submitted.
+		b = w.badLatest[w.attempt%len(w.badLatest)]
+		w.cur[0] = hx(b)
+		return b, nil
+	}
 	if w.real != nil {
 		if w.failing('r') && w.ctl != nil {
 			// the fault is BELOW the adapter: the witness's own storage read fails in this attempt
@@ -211,6 +219,12 @@ func scenarioFeeder(t *traceWriter, rng *rand.Rand) {
 		cases = append(cases, fcase{3, 8, false, p, true, 0, false, 0, 0}, fcase{9, 5, false, p, true, 0, false, 0, 0},
 			fcase{-1, 5, false, p, true, 0, false, 0, 0}, fcase{6, 6, false, p, true, 0, false, 0, 0}, fcase{4, 7, true, p, true, 0, false, 0, 0})
 	}
+	// the witness answers with something that is not this log's checkpoint
+	for _, p := range []string{"b", "bb", "bg", "ub", "bbb", "pb"} {
+		for _, realW := range []bool{false, true} {
+			cases = append(cases, fcase{3, 8, false, p, realW, 0, false, 0, 0}, fcase{-1, 5, false, p, realW, 0, false, 0, 0}, fcase{6, 6, false, p, realW, 0, false, 0, 0})
+		}
+	}
 	// sizes that differ by more than 2^63: the comparison "is the witness ahead" must not be done on a signed difference
 	for _, p := range [][2]uint64{{1<<63 + 2, 1}, {1, 1<<63 + 1}, {1<<64 - 1, 5}, {5, 1<<64 - 1}, {1 << 63, 1 << 63}, {1<<63 + 9, 1<<63 + 8}, {7, 1 << 62}} {
 		cases = append(cases, fcase{wsize: 1, lsize: 1, wBig: p[0], lBig: p[1]})
@@ -267,6 +281,13 @@ func scenarioFeeder(t *traceWriter, rng *rand.Rand) {
 				fetched = signNote(cpText(origin+"/x", uint64(c.lsize), br.root(uint64(c.lsize))), key.signer)
 			}
 			sw := &scriptedWitness{script: c.pattern, latest: latest, logID: l.id, fetched: fetched, br: br, cur: [3]string{"_", "_", "_"}}
+			good := signNote(cpText(origin, 2, tr.root(2)), key.signer)
+			sw.badLatest = [][]byte{
+				signNote(cpText(origin, 2, tr.root(2)), other.signer),
+				signNote(cpText(origin+"/x", 2, tr.root(2)), key.signer),
+				good[:len(good)-9],
+				[]byte("not a checkpoint"),
+			}
 			if c.realW {
 				sw.real = omniwitness.VerifNewAdapter(s.w)
 				sw.ctl = ctl
